@@ -1301,6 +1301,12 @@ def ghost_asserts(text, owner, props, blockno):
             desc = lm.group(3)
         cl = Clause('%s#%s' % (owner, cid), 'assert', _norm(line), desc, p)
         clauses.append(cl)
+        if re.match(r'assert\s+forall\b', m[mm.start():]):
+            # `assert forall|..| a implies b by {`: Verus reports the failure on the `implies` part, which may be on a later line
+            kb = re.search(r'\bby\s*\{', m[mm.start():])
+            if kb:
+                le2 = text.find('\n', mm.start() + kb.start())
+                le = le2 if le2 >= 0 else len(text)
         spans.append((mm.start(), le, cl))
     return spans, clauses
 
